@@ -21,6 +21,7 @@ NP == Hdr.NP
 BS == Hdr.BS
 VLen == Hdr.vlen
 NameOrder == Hdr.names
+Reduced == "hs" \in DOMAIN Hdr /\ Hdr.hs # 16      \* hash size below 16 bytes (hashsize option)
 
 INSTANCE Array
 
@@ -150,7 +151,8 @@ C01_Fix(c, f0, pr0, s, o) ==
 (* C05: fix never silently leaves or produces wrong data *)
 C05_Sig(c, g, d, n, i, got) ==
     LET b == c.cf[d][n].bl[i]
-    IN IF b.st = "CHG" /\ IsUnique(b.h) /\ b.h = WantBlock(c, g, d, n, i) THEN "F1-chg-pasthash-is-new-hash"
+    IN IF Reduced /\ b.st = "CHG" THEN "F7-reduced-hash-chg-block-always-accepted"
+       ELSE IF b.st = "CHG" /\ IsUnique(b.h) /\ b.h = WantBlock(c, g, d, n, i) THEN "F1-chg-pasthash-is-new-hash"
        ELSE IF b.st = "CHG" /\ IsUnique(b.h) /\ LenOf(b.h) # BlkLen(c.cf[d][n].sz, i) THEN "F2-chg-pasthash-other-length"
        ELSE "other"
 C05_Fix(c, g, f0, s, o, selected, allstripes) ==
@@ -300,7 +302,7 @@ SyncStep ==
     /\ IsEvent("Sync")
     /\ LET a == Ev.args
            fs1 == IF "fs1" \in DOMAIN Ev THEN Ev.fs1 ELSE fs
-           r == SyncResult(C, fs, fs1, par, a.now, [links |-> LinkCounts(lks)] @@ a.opts, SrcsOf(a))
+           r == SyncResult(C, fs, fs1, par, a.now, [links |-> LinkCounts(lks), reduced |-> Reduced] @@ a.opts, SrcsOf(a))
            okC == r.C = LoggedC(Ev.state)
            okP == ParAgrees(r.par, Ev.state)
            okO == IF r.out.exit \in {"refused", "abort", "prehash-stop"} THEN Ev.out.exit = "stopped"
@@ -324,7 +326,11 @@ SyncStep ==
           /\ pviol' = (IF "fs1" \in DOMAIN Ev THEN <<>> ELSE C12_Frame("Sync", Ev.state)) \o
                       (IF r.out.exit = "refused" /\ (Ev.out.rc = 0 \/ Ev.state.sha.c # sha.c \/ ~SamePar(Ev.state.sha.p, sha.p))
                        THEN <<<<"C14", "interlock-did-not-hold", [rc |-> Ev.out.rc, before |-> sha, after |-> Ev.state.sha]>>>> ELSE <<>>) \o
-                      (IF "expect_refused" \in DOMAIN a /\ r.out.exit # "refused" THEN <<<<"C14", "model-does-not-refuse", a.flags>>>> ELSE <<>>) \o
+                      \* C14 on what the property demands (r.must), whatever the code (and the specification that follows it) does
+                      (IF r.must # "no" /\ r.out.exit # "refused" /\ Ev.out.exit # "stopped"
+                       THEN <<<<"C14", IF r.must = "parity-too-small" /\ a.opts.v3 THEN "F12-parity-size-interlock-uses-the-recorded-size"
+                                       ELSE "interlock-not-applied:" \o r.must, [rc |-> Ev.out.rc, flags |-> a.flags]>>>> ELSE <<>>) \o
+                      (IF "expect_refused" \in DOMAIN a /\ r.out.exit # "refused" /\ r.must = "no" THEN <<<<"C14", "model-does-not-refuse", a.flags>>>> ELSE <<>>) \o
                       \* C19: a block is recorded as synced only with the hash of the data that was read; with pre-hash a
                       \* mismatch stops the sync before any parity is written
                       (IF ~dmg /\ "fs1" \notin DOMAIN Ev /\ Ev.out.exit = "ok" /\ fullsync /\ C19_Wrong(newc, Ev.state.fs) # {}
@@ -373,7 +379,8 @@ SyncKilledStep ==
           /\ UNCHANGED <<snap, dmg>>
 
 SelOf(a) == [d \in D |-> ToSet(a.sel[d])]
-ExtOf(a) == IF "ext" \in DOMAIN a THEN [stamp |-> ToSet(a.ext.stamp), blocks |-> ToSet(a.ext.blocks)] ELSE NoExt
+ExtOf(a) == IF "ext" \in DOMAIN a THEN [stamp |-> ToSet(a.ext.stamp), blocks |-> ToSet(a.ext.blocks), reduced |-> Reduced]
+            ELSE [NoExt EXCEPT !.reduced = Reduced]
 
 FltOf(a) == IF "flt" \in DOMAIN a
             THEN FilterOf(C, [disks |-> ToSet(a.flt.disks), plevels |-> ToSet(a.flt.plevels), usenames |-> a.flt.usenames,
@@ -385,7 +392,7 @@ CheckStep ==
     /\ IsEvent("Check")
     /\ LET a == Ev.args
            r == CheckResultX(C, PathFs(fs, lks), par, PresentOf(a), a.audit, a.range, ExtOf(a))
-           lerr == LinkErrorsF(lks, fs)
+           lerr == LinkErrorsF(lks, fs) /\ RangeOf(a.range, AllocatedMax(C)) # {}      \* links are not looked at without any stripe
            xexit == IF r.exit = "ok" /\ lerr THEN (IF a.audit THEN "error" ELSE "recoverable") ELSE r.exit
            okO == (xexit = Ev.out.exit \/ (lerr /\ Ev.out.exit = "unrecoverable"))
                   /\ r.derr = PairSet(Ev.out.derr) /\ (a.audit \/ r.perr = PairSet(Ev.out.perr))
@@ -452,7 +459,7 @@ FaultStep ==
            \* synced, not marked bad unless it would be.  Not for sync -h (an error in the pre-hash phase stops the command
            \* before any stripe is processed) and not for failing parity writes (the command stops at once).
            readfault == p >= 0 /\ a.fkind \in {"data-read", "parity-read"} /\ "opts" \in DOMAIN a /\ "srcs" \in DOMAIN a /\ ~a.opts.prehash
-           rS == IF Ev.e = "SyncFault" THEN SyncResult(C, fs, fs, par, a.now, [links |-> LinkCounts(lks)] @@ a.opts, SrcsOf(a)).C
+           rS == IF Ev.e = "SyncFault" THEN SyncResult(C, fs, fs, par, a.now, [links |-> LinkCounts(lks), reduced |-> Reduced] @@ a.opts, SrcsOf(a)).C
                  ELSE ScrubResult(C, PathFs(fs, lks), par, PlanSel(C, a.plan), a.now, PresentOf(a)).C
            spread == IF Ev.e = "SyncFault"
                      THEN {q \in 0..(AllocatedMax(rS) - 1) : q # p /\ ((AllSynced(rS, q) /\ ~AllSynced(newc, q))
